@@ -39,8 +39,10 @@ CFG = {
         "writes; LoadAndDelete marks under the node lock and reads the value after unlocking; Load): the value of a node is written "
         "only under its lock while it is linked and unmarked, is frozen once the node is marked, a LoadAndDelete returns the value its "
         "victim had when it marked it (the last value stored: no lost update), a Store's pair is in the abstract map right after its "
-        "write, and LINEARIZABILITY OF THE VALUE MODEL: the recorded history of every complete execution of Store/Load/LoadAndDelete "
-        "programs (any keys, values, schedule) is linearizable w.r.t. the finite-map specification Spec.fmap_step, with the final "
+        "write, and LINEARIZABILITY OF THE VALUE MODEL: the recorded history of every complete execution of Store/Load/LoadAndDelete/"
+        "LoadOrStore/LoadOrStoreLazy/Delete programs (LoadOrStore's found path reads marked and the value without the node lock "
+        "after waiting for fullyLinked; the lazy constructor is a ghost counter: once per insert, never when found: "
+        "C04_lazymap_lazy_once)  (any keys, values, schedule) is linearizable w.r.t. the finite-map specification Spec.fmap_step, with the final "
         "specification state equal to the final abstract map (C04_lazymap_linearizable; linearization points: fullyLinked step / "
         "value write under the node lock / marking step; failing LoadAndDelete and Load by hindsight; a successful Load at its value "
         "read or, if the node was marked in between, at the moment before the marking); and the PRE-REPAIR Store (no node lock) is refuted: a concrete schedule stores into a marked node and the resulting "
@@ -60,8 +62,8 @@ CFG = {
         "counter, no Range), sequentially consistent memory, a lock acquisition that fails is a no-op step. The model's Remove "
         "re-searches from the header when its marked victim is not found where expected; the progress proof shows that this "
         "defensive branch is never taken. Linearizability is proved for the SET operations Add/Remove/Contains of LazySkip and for "
-        "Store/Load/LoadAndDelete of LazyMap (all keys); LoadOrStore(Lazy)/Delete/Range/Len/Clear are in neither model (Delete is "
-        "LoadAndDelete without the value; LoadOrStore's found-node path reads the value without the lock). "
+        "Store/Load/LoadAndDelete/LoadOrStore/LoadOrStoreLazy/Delete of LazyMap (all keys); Range/Len/Clear are in neither model. The "
+        "model's Delete runs LoadAndDelete's steps including its final value read (a stutter read the Go Delete does not have). "
         "C04_lazyskip_one_remove_wins assumes the key is added by the only Add of that key, which responds before every Remove of it is "
         "invoked. Seeded in-code yield points were NOT added: a `verifYield(k)` line inside Store/Delete/... would "
         "touch existing lines, which hooks must not do; scheduling is perturbed from outside instead (GOMAXPROCS cycling "
@@ -76,6 +78,7 @@ CFG = {
         "model keeps lane 0 only (a node of height h is on lanes 0..h-1 by construction; the harness checks the real lanes "
         "against the level field) and does not model the `level > hl` retry of LoadOrStore(Lazy), locks, flags or retries. "
         "The lazy-constructor clause is additionally judged PER CALL on large histories (no search): rounds on a map pre-filled with 24-300 keys (towers differ per lane), 2-5 goroutines calling LoadOrStoreLazy on fresh keys adjacent to keys that 2-5 other goroutines Delete/Store/LoadAndDelete/LoadOrStore concurrently; every call carries a closure counter and Check.lazy_call_ok_b (C04_lazy_calls_b) requires calls <= 1, = 1 with the constructed value returned iff the call reports stored, = 0 when it reports loaded. "
+        "User comparators returning magnitudes (a-b, b-a, (a-b)*7, struct-field subtraction; key encodings with gaps 1,1,5 / 2,4,6,.. / 3, plus a slow yielding a-b comparator) are exercised on skipmap, skipset and the Safe wrappers in the sequential stream and in the concurrent rounds; the cases carry the keys' RANKS under the comparator (order isomorphism enc/dec in the harness), so Spec/Model/case types are unchanged. Rounds with a Range goroutine pre-store anchor keys below and above the contended ones (present for the whole of every Range call); half of the map rounds run a slow LoadOrStoreLazy constructor (user code under the predecessor locks). "
         "Typed variants (Int64Map, StringMap, ...) do not exist in this fork: the generic comparator-based Map/Set are "
         "instantiated with int64, string, int under a reversed comparator, a struct key under a hand-written comparator, and the "
         "mutex wrappers MapSafe/SetSafe. Defects: D8 repaired by patches 0008/0009; two further defects found by the concurrent "
@@ -94,7 +97,7 @@ CFG = {
                                 "C04_lazymap_lock_owner", "C04_lazymap_value_write", "C04_lazymap_marked_frozen",
                                 "C04_lazymap_lad_returns_marked_value", "C04_lazymap_store_visible",
                                 "C04_lazymap_prerepair_refuted", "C04_lazymap_prerepair_history_rejected",
-                                "C04_lazymap_linearizable"])],
+                                "C04_lazymap_linearizable", "C04_lazymap_lazy_once"])],
     "trusted": [
         "height oracle: node heights are premises of the refinement theorems (>= 1, what randomLevel() returns); the harness "
         "injects them through the reassignable fastrand.Uint32 and reads them back through the verif accessor VerifShape",
